@@ -10,6 +10,9 @@ impl TplMap {
     pub uninterp spec fn names(&self) -> Set<Name>;
     /// the template registered under a name
     pub uninterp spec fn tpl_of(&self, n: Name) -> &Template;
+    /// HashMap::get
+    #[verifier::external_body]
+    pub fn get(&self, k: &str) -> (r: Option<&Template>) ensures r is Some == self.names().contains(k@), r is Some ==> r->Some_0 == self.tpl_of(k@) { unimplemented!() }
     /// HashMap::contains_key
     #[verifier::external_body]
     pub fn contains_key(&self, k: &str) -> (r: bool) ensures r == self.names().contains(k@) { unimplemented!() }
